@@ -85,31 +85,6 @@ Proof.
     apply Inv_after_write with (p := p); auto. tauto.
 Qed.
 
-Lemma wbws_core : forall st x st1, write_block_with_state st x = Ok st1 ->
-  canon st1 = canon st /\ hd_header st1 = hd_header st /\ hd_block st1 = hd_block st.
-Proof.
-  intros st x st1 H. unfold write_block_with_state in H.
-  destruct (negb (is_known st (b_parent (snd x))) && negb (hnum x =? 0)); [discriminate|].
-  inversion H; subst. cbn. unfold add_known. destruct (is_known st (fst x)); cbn; auto.
-Qed.
-
-Lemma add_known_core : forall st h,
-  canon (add_known st h) = canon st /\ hd_header (add_known st h) = hd_header st /\
-  hd_block (add_known st h) = hd_block st.
-Proof. intros. unfold add_known. destruct (is_known st h); cbn; auto. Qed.
-
-Lemma wbash_inv : forall fuel st x st' ev, Inv st -> hdr_ok x ->
-  write_block_and_set_head T fuel st x = Ok (st', ev) -> Inv st'.
-Proof.
-  intros fuel st x st' ev HI Hx H. unfold write_block_and_set_head in H.
-  destruct (write_block_with_state st x) as [st1|] eqn:EW; [|discriminate].
-  destruct (wbws_core _ _ _ EW) as (E1 & E2 & E3).
-  assert (HI1 : Inv st1) by (eapply Inv_core; eauto).
-  destruct (reorg_if_needed T fuel st1 x) as [[st2 ev2]|] eqn:ER; [|discriminate].
-  inversion H; subst.
-  apply (wkb_inv fuel st1 x _ ev2); auto. unfold write_known_block. now rewrite ER.
-Qed.
-
 Lemma skip_known_ok : forall st cn l first l' f', skip_known st cn first l = (l', f') ->
   Forall hdr_ok l -> Forall hdr_ok l'.
 Proof.
@@ -120,88 +95,6 @@ Proof.
       * inversion H; subst; auto.
       * inversion HF; subst. eapply IH; eauto.
     + inversion H; subst; auto.
-Qed.
-
-Lemma write_knowns_inv : forall fuel l st first last evs st' l' f' last' evs' e',
-  write_knowns T fuel st first l last evs = (st', l', f', last', evs', e') ->
-  Inv st -> Forall hdr_ok l -> Inv st' /\ Forall hdr_ok l'.
-Proof.
-  induction l as [|x r IH]; intros st first last evs st' l' f' last' evs' e' H HI HF; cbn in H.
-  - inversion H; subst; auto.
-  - inversion HF as [|? ? Hx Hr]; subst.
-    destruct (is_CKnown (classify st first x)).
-    + destruct (write_known_block T fuel st x) as [[st1 ev]|] eqn:EK.
-      * eapply IH; eauto. eapply wkb_inv; eauto.
-      * inversion H; subst; auto.
-    + inversion H; subst; auto.
-Qed.
-
-Lemma import_loop_inv : forall fuel sh l st first last evs st' last' evs' e',
-  import_loop T fuel st sh first l last evs = (st', last', evs', e') ->
-  Inv st -> Forall hdr_ok l -> Inv st'.
-Proof.
-  induction l as [|x r IH]; intros st first last evs st' last' evs' e' H HI HF; cbn in H.
-  - inversion H; subst; auto.
-  - inversion HF as [|? ? Hx Hr]; subst.
-    destruct (classify st first x).
-    + (* fresh *)
-      destruct sh.
-      * destruct (write_block_and_set_head T fuel st x) as [[st1 ev]|] eqn:EW.
-        -- eapply IH; eauto. eapply wbash_inv; eauto.
-        -- inversion H; subst; auto.
-      * destruct (write_block_with_state st x) as [st1|] eqn:EW; inversion H; subst; auto.
-        destruct (wbws_core _ _ _ EW) as (E1 & E2 & E3). eapply Inv_core; eauto.
-    + (* known *)
-      match type of H with context [write_known_block T fuel ?s0 x] => set (st0 := s0) in * end.
-      assert (HI0 : Inv st0).
-      { subst st0. destruct (b_txs (snd x)); auto. }
-      destruct (write_known_block T fuel st0 x) as [[st1 ev]|] eqn:EK.
-      * eapply IH; eauto. eapply wkb_inv; eauto.
-      * inversion H; subst; auto.
-    + inversion H; subst; auto.
-    + inversion H; subst; auto.
-Qed.
-
-Definition pruned_ok (pruned : db -> bool -> list hdr -> outcome) : Prop :=
-  forall st sh l st' ev e, pruned st sh l = (st', ev, e) -> Inv st -> Forall hdr_ok l -> Inv st'.
-
-Lemma insert_chain_core_inv : forall pruned fuel st sh l st' ev e, pruned_ok pruned ->
-  insert_chain_core T pruned fuel st sh l = (st', ev, e) ->
-  Inv st -> Forall hdr_ok l -> Inv st'.
-Proof.
-  intros pruned fuel st sh l st' ev e Hpr H HI HF. unfold insert_chain_core in H.
-  destruct l as [|x0 l0]; [inversion H; subst; auto|].
-  set (cn := match cur_hdr T st with Some c => hnum c | None => 0 end) in *.
-  destruct (is_CKnown (classify st true x0)).
-  - destruct (skip_known st cn true (x0 :: l0)) as [l1 first1] eqn:ES.
-    pose proof (skip_known_ok _ _ _ _ _ _ ES HF) as HF1.
-    destruct (write_knowns T fuel st first1 l1 None []) as [[[[[st2 l2] first2] last] evs] e2] eqn:EWK.
-    destruct (write_knowns_inv _ _ _ _ _ _ _ _ _ _ _ _ EWK HI HF1) as (HI2 & HF2).
-    destruct e2 as [e2|]; [inversion H; subst; auto|].
-    destruct l2 as [|x l2']; [inversion H; subst; auto|].
-    destruct (classify st2 first2 x).
-    + destruct (import_loop T fuel st2 sh first2 (x :: l2') last evs) as [[[st3 last3] ev3] e3] eqn:EI.
-      inversion H; subst. eapply import_loop_inv; eauto.
-    + destruct (import_loop T fuel st2 sh first2 (x :: l2') last evs) as [[[st3 last3] ev3] e3] eqn:EI.
-      inversion H; subst. eapply import_loop_inv; eauto.
-    + inversion H; subst; auto.
-    + destruct (pruned st2 sh (x :: l2')) as [[st3 ev3] e3] eqn:EP.
-      inversion H; subst. eapply Hpr; eauto.
-  - destruct (classify st true x0).
-    + destruct (import_loop T fuel st sh true (x0 :: l0) None []) as [[[st3 last3] ev3] e3] eqn:EI.
-      inversion H; subst. eapply import_loop_inv; eauto.
-    + destruct (import_loop T fuel st sh true (x0 :: l0) None []) as [[[st3 last3] ev3] e3] eqn:EI.
-      inversion H; subst. eapply import_loop_inv; eauto.
-    + inversion H; subst; auto.
-    + destruct (pruned st sh (x0 :: l0)) as [[st3 ev3] e3] eqn:EP.
-      inversion H; subst. eapply Hpr; eauto.
-Qed.
-
-Lemma insert_chain0_inv : forall fuel st sh l st' ev e,
-  insert_chain0 T fuel st sh l = (st', ev, e) -> Inv st -> Forall hdr_ok l -> Inv st'.
-Proof.
-  intros. eapply insert_chain_core_inv; eauto.
-  intros s b l0 s' ev0 e0 Hp. inversion Hp; subst; auto.
 Qed.
 
 Lemma stateless_walk_ok : forall fuel st x acc r acc',
@@ -216,84 +109,8 @@ Proof.
   - apply Forall_app; split; auto.
 Qed.
 
-Lemma side_write_inv : forall cn l st prev st' prev', side_write st cn l prev = (st', prev') ->
-  Inv st -> Forall hdr_ok l -> (forall h, prev = Some h -> hdr_ok h) ->
-  Inv st' /\ (forall h, prev' = Some h -> hdr_ok h).
-Proof.
-  induction l as [|x r IH]; intros st prev st' prev' H HI HF Hp; cbn [side_write] in H.
-  - inversion H; subst; auto.
-  - inversion HF as [|? ? Hx Hr]; subst.
-    destruct (classify st false x); try (inversion H; subst; auto; fail).
-    assert (Hsx : forall h, Some x = Some h -> hdr_ok h) by (intros h Hh; inversion Hh; subst; auto).
-    destruct ((hnum x <=? cn) && oeqb (canon st (hnum x)) (fst x)).
-    + apply (IH _ _ _ _ H HI Hr Hsx).
-    + refine (IH _ _ _ _ H _ Hr Hsx).
-      destruct (is_known st (fst x)); auto. unfold write_block_without_state.
-      destruct (add_known_core st (fst x)) as (E1 & E2 & E3). eapply Inv_core; eauto.
-Qed.
-
 Lemma Forall_rev' : forall A (P : A -> Prop) l, Forall P l -> Forall P (rev l).
 Proof. intros. apply Forall_forall. intros x Hx. apply in_rev in Hx. eapply Forall_forall; eauto. Qed.
-
-Lemma insert_side_chain_inv : forall fuel st l st' ev e,
-  insert_side_chain T fuel st l = (st', ev, e) -> Inv st -> Forall hdr_ok l -> Inv st'.
-Proof.
-  intros fuel st l st' ev e H HI HF. unfold insert_side_chain in H.
-  set (cn := match cur_hdr T st with Some c => hnum c | None => 0 end) in *.
-  destruct (side_write st cn l None) as [st1 prev] eqn:ES.
-  destruct (side_write_inv _ _ _ _ _ _ ES HI HF) as (HI1 & Hprev); [discriminate|].
-  destruct (stateless_walk T fuel st1 prev []) as [[[y|] hashes]|] eqn:EW;
-    try (inversion H; subst; auto; fail).
-  pose proof (stateless_walk_ok _ _ _ _ _ _ EW Hprev (Forall_nil _)) as HFh.
-  destruct (rev hashes) as [|b0 br] eqn:ER; [inversion H; subst; auto|].
-  eapply insert_chain0_inv; eauto. rewrite <- ER. now apply Forall_rev'.
-Qed.
-
-Lemma recover_each_inv : forall fuel l st evs st' ev e,
-  recover_each T fuel st l evs = (st', ev, e) -> Inv st -> Forall hdr_ok l -> Inv st'.
-Proof.
-  induction l as [|x r IH]; intros st evs st' ev e H HI HF; cbn [recover_each] in H.
-  - inversion H; subst; auto.
-  - inversion HF as [|? ? Hx Hr]; subst.
-    destruct (insert_chain0 T fuel st false [x]) as [[st1 ev1] e1] eqn:EI.
-    assert (HI1 : Inv st1) by (eapply insert_chain0_inv; eauto).
-    destruct e1; [inversion H; subst; auto|]. apply (IH _ _ _ _ _ H HI1 Hr).
-Qed.
-
-Lemma recover_ancestors_inv : forall fuel st x st' ev e,
-  recover_ancestors T fuel st x = (st', ev, e) -> Inv st -> hdr_ok x -> Inv st'.
-Proof.
-  intros fuel st x st' ev e H HI Hx. unfold recover_ancestors in H.
-  destruct (stateless_walk T fuel st (Some x) []) as [[[y|] hashes]|] eqn:EW;
-    try (inversion H; subst; auto; fail).
-  eapply recover_each_inv; eauto. apply Forall_rev'.
-  eapply stateless_walk_ok; eauto. intros h Hh; inversion Hh; subst; auto.
-Qed.
-
-Lemma pruned_case_ok : forall fuel, pruned_ok (pruned_case T fuel).
-Proof.
-  intros fuel st sh l st' ev e H HI HF. unfold pruned_case in H. destruct sh.
-  - eapply insert_side_chain_inv; eauto.
-  - destruct l as [|x r]; [inversion H; subst; auto|].
-    inversion HF; subst. eapply recover_ancestors_inv; eauto.
-Qed.
-
-Lemma insert_chain_inv : forall fuel st sh l st' ev e,
-  insert_chain T fuel st sh l = (st', ev, e) -> Inv st -> Forall hdr_ok l -> Inv st'.
-Proof. intros. eapply insert_chain_core_inv; eauto. apply pruned_case_ok. Qed.
-
-Lemma set_canonical_inv : forall fuel st x st' ev e,
-  set_canonical T fuel st x = (st', ev, e) -> Inv st -> hdr_ok x -> Inv st'.
-Proof.
-  intros fuel st x st' ev e H HI Hx. unfold set_canonical in H.
-  destruct (if avail st (fst x) then (st, [], None) else recover_ancestors T fuel st x)
-    as [[st1 ev1] e1] eqn:ER.
-  assert (HI1 : Inv st1).
-  { destruct (avail st (fst x)); [inversion ER; subst; auto|]. eapply recover_ancestors_inv; eauto. }
-  destruct e1; [inversion H; subst; auto|].
-  destruct (reorg_if_needed T fuel st1 x) as [[st2 ev2]|] eqn:ERI; inversion H; subst; auto.
-  apply (wkb_inv fuel st1 x _ ev2); auto. unfold write_known_block. now rewrite ERI.
-Qed.
 
 Lemma resolve_all_ok : forall l hs, resolve_all T l = Some hs -> Forall hdr_ok hs.
 Proof.
@@ -314,17 +131,317 @@ Qed.
 Definition import_op (o : op) : Prop :=
   match o with OSetHead _ | ORestart => False | _ => True end.
 
-Lemma step_inv : forall fuel st o st' ev e, import_op o ->
-  step T fuel st o = (st', ev, e) -> Inv st -> Inv st'.
+Lemma wbws_core : forall st x st1, write_block_with_state st x = Ok st1 ->
+  canon st1 = canon st /\ hd_header st1 = hd_header st /\ hd_block st1 = hd_block st.
+Proof.
+  intros st x st1 H. unfold write_block_with_state in H.
+  destruct (negb (is_known st (b_parent (snd x))) && negb (hnum x =? 0)); [discriminate|].
+  inversion H; subst. cbn. unfold add_known. destruct (is_known st (fst x)); cbn; auto.
+Qed.
+
+Lemma add_known_core : forall st h,
+  canon (add_known st h) = canon st /\ hd_header (add_known st h) = hd_header st /\
+  hd_block (add_known st h) = hd_block st.
+Proof. intros. unfold add_known. destruct (is_known st h); cbn; auto. Qed.
+
+Lemma mem_cons_or : forall x a l, mem x (a :: l) = (x =? a) || mem x l.
+Proof. reflexivity. Qed.
+
+Lemma add_known_known : forall st h k, is_known st k = true -> is_known (add_known st h) k = true.
+Proof.
+  intros st h k H. unfold add_known. destruct (is_known st h) eqn:E; auto.
+  unfold is_known in *. cbn. rewrite mem_cons_or, H. apply orb_true_r.
+Qed.
+Lemma add_known_self : forall st h, is_known (add_known st h) h = true.
+Proof.
+  intros st h. unfold add_known. destruct (is_known st h) eqn:E; auto.
+  unfold is_known. cbn. rewrite mem_cons_or, N.eqb_refl. reflexivity.
+Qed.
+
+Lemma wbws_known : forall st x st1 k, write_block_with_state st x = Ok st1 ->
+  (is_known st k = true -> is_known st1 k = true) /\ is_known st1 (fst x) = true.
+Proof.
+  intros st x st1 k H. unfold write_block_with_state in H.
+  destruct (negb (is_known st (b_parent (snd x))) && negb (hnum x =? 0)); [discriminate|].
+  inversion H; subst. unfold is_known at 2 4. cbn [known]. split.
+  - apply add_known_known.
+  - apply add_known_self.
+Qed.
+
+Lemma classify_known : forall st first x, is_CKnown (classify st first x) = true ->
+  is_known st (fst x) = true.
+Proof.
+  intros st first x H. unfold classify in H.
+  destruct (first && negb (is_known st (b_parent (snd x)))); [discriminate|].
+  destruct (is_known st (fst x)); auto. cbn in H.
+  destruct (is_known st (b_parent (snd x)) && avail st (b_parent (snd x))); [discriminate|].
+  destruct (negb (is_known st (b_parent (snd x)))); discriminate.
+Qed.
+
+(* reorg touches neither the stored blocks nor their state *)
+Lemma reorg_frame : forall fuel st old new st' evs,
+  reorg T fuel st old new = Ok (st', evs) -> same_frame st st'.
+Proof.
+  intros fuel st old new st' evs H. rewrite reorg_unfold in H.
+  destruct (reorg_walk T fuel st old new) as [[[c oc] nc]|]; [|discriminate].
+  cbv zeta in H.
+  match type of H with context [del_canon_from fuel ?cc ?ii] =>
+    destruct (del_canon_from fuel cc ii) as [c'|]; [|discriminate] end.
+  inversion H; subst. repeat split; cbn; apply (fold_whb_frame (rev (tl nc)) st).
+Qed.
+
+Lemma wkb_known : forall fuel st x st' ev, write_known_block T fuel st x = Ok (st', ev) ->
+  known st' = known st.
+Proof.
+  intros fuel st x st' ev H. unfold write_known_block, reorg_if_needed in H.
+  destruct (b_parent (snd x) =? hd_block st).
+  - inversion H; subst. reflexivity.
+  - destruct (cur_hdr T st) as [cur|]; [|discriminate].
+    destruct (reorg T fuel st cur x) as [[st1 ev1]|] eqn:ER; [|discriminate].
+    inversion H; subst. cbn. apply (reorg_frame _ _ _ _ _ _ ER).
+Qed.
+
+(* ---- the import machinery preserves any predicate preserved by its four
+        primitive state changes ---- *)
+Section Generic.
+Variable P : db -> Prop.
+Hypothesis P_wbws : forall st x st1, P st -> write_block_with_state st x = Ok st1 -> P st1.
+Hypothesis P_addk : forall st h, P st -> P (add_known st h).
+Hypothesis P_rcpt : forall st h, P st ->
+  P (mkdb (known st) (upd (rcpt st) h true) (avail st) (disk st) (canon st) (lookup st)
+          (hd_block st) (hd_header st) (hd_snap st)).
+Hypothesis P_wkb : forall fuel st x st' ev, P st -> hdr_ok x -> is_known st (fst x) = true ->
+  write_known_block T fuel st x = Ok (st', ev) -> P st'.
+
+Lemma wbash_gen : forall fuel st x st' ev, P st -> hdr_ok x ->
+  write_block_and_set_head T fuel st x = Ok (st', ev) -> P st'.
+Proof.
+  intros fuel st x st' ev HI Hx H. unfold write_block_and_set_head in H.
+  destruct (write_block_with_state st x) as [st1|] eqn:EW; [|discriminate].
+  destruct (reorg_if_needed T fuel st1 x) as [[st2 ev2]|] eqn:ER; [|discriminate].
+  inversion H; subst.
+  apply (P_wkb fuel st1 x _ ev2); eauto.
+  - apply (wbws_known _ _ _ 0 EW).
+  - unfold write_known_block. now rewrite ER.
+Qed.
+
+Lemma write_knowns_gen : forall fuel l st first last evs st' l' f' last' evs' e',
+  write_knowns T fuel st first l last evs = (st', l', f', last', evs', e') ->
+  P st -> Forall hdr_ok l -> P st' /\ Forall hdr_ok l'.
+Proof.
+  induction l as [|x r IH]; intros st first last evs st' l' f' last' evs' e' H HI HF; cbn [write_knowns] in H.
+  - inversion H; subst; auto.
+  - inversion HF as [|? ? Hx Hr]; subst.
+    destruct (is_CKnown (classify st first x)) eqn:EC.
+    + destruct (write_known_block T fuel st x) as [[st1 ev]|] eqn:EK.
+      * eapply IH; eauto. eapply P_wkb; eauto. eapply classify_known; eauto.
+      * inversion H; subst; auto.
+    + inversion H; subst; auto.
+Qed.
+
+Lemma import_loop_gen : forall fuel sh l st first last evs st' last' evs' e',
+  import_loop T fuel st sh first l last evs = (st', last', evs', e') ->
+  P st -> Forall hdr_ok l -> P st'.
+Proof.
+  induction l as [|x r IH]; intros st first last evs st' last' evs' e' H HI HF; cbn [import_loop] in H.
+  - inversion H; subst; auto.
+  - inversion HF as [|? ? Hx Hr]; subst.
+    destruct (classify st first x) eqn:EC.
+    + destruct sh.
+      * destruct (write_block_and_set_head T fuel st x) as [[st1 ev]|] eqn:EW.
+        -- eapply IH; eauto. eapply wbash_gen; eauto.
+        -- inversion H; subst; auto.
+      * destruct (write_block_with_state st x) as [st1|] eqn:EW; inversion H; subst; eauto.
+    + assert (HK : is_known st (fst x) = true) by (eapply classify_known; rewrite EC; reflexivity).
+      match type of H with context [write_known_block T fuel ?s0 x] => set (st0 := s0) in * end.
+      assert (HI0 : P st0 /\ is_known st0 (fst x) = true).
+      { subst st0. destruct (b_txs (snd x)); split; auto. }
+      destruct HI0 as (HI0 & HK0).
+      destruct (write_known_block T fuel st0 x) as [[st1 ev]|] eqn:EK.
+      * eapply IH; eauto.
+      * inversion H; subst; auto.
+    + inversion H; subst; auto.
+    + inversion H; subst; auto.
+Qed.
+
+Definition pruned_ok (pruned : db -> bool -> list hdr -> outcome) : Prop :=
+  forall st sh l st' ev e, pruned st sh l = (st', ev, e) -> P st -> Forall hdr_ok l -> P st'.
+
+Lemma insert_chain_core_gen : forall pruned fuel st sh l st' ev e, pruned_ok pruned ->
+  insert_chain_core T pruned fuel st sh l = (st', ev, e) ->
+  P st -> Forall hdr_ok l -> P st'.
+Proof.
+  intros pruned fuel st sh l st' ev e Hpr H HI HF. unfold insert_chain_core in H.
+  destruct l as [|x0 l0]; [inversion H; subst; auto|].
+  set (cn := match cur_hdr T st with Some c => hnum c | None => 0 end) in *.
+  destruct (is_CKnown (classify st true x0)).
+  - destruct (skip_known st cn true (x0 :: l0)) as [l1 first1] eqn:ES.
+    pose proof (skip_known_ok _ _ _ _ _ _ ES HF) as HF1.
+    destruct (write_knowns T fuel st first1 l1 None []) as [[[[[st2 l2] first2] last] evs] e2] eqn:EWK.
+    destruct (write_knowns_gen _ _ _ _ _ _ _ _ _ _ _ _ EWK HI HF1) as (HI2 & HF2).
+    destruct e2 as [e2|]; [inversion H; subst; auto|].
+    destruct l2 as [|x l2']; [inversion H; subst; auto|].
+    destruct (classify st2 first2 x).
+    + destruct (import_loop T fuel st2 sh first2 (x :: l2') last evs) as [[[st3 last3] ev3] e3] eqn:EI.
+      inversion H; subst. eapply import_loop_gen; eauto.
+    + destruct (import_loop T fuel st2 sh first2 (x :: l2') last evs) as [[[st3 last3] ev3] e3] eqn:EI.
+      inversion H; subst. eapply import_loop_gen; eauto.
+    + inversion H; subst; auto.
+    + destruct (pruned st2 sh (x :: l2')) as [[st3 ev3] e3] eqn:EP.
+      inversion H; subst. eapply Hpr; eauto.
+  - destruct (classify st true x0).
+    + destruct (import_loop T fuel st sh true (x0 :: l0) None []) as [[[st3 last3] ev3] e3] eqn:EI.
+      inversion H; subst. eapply import_loop_gen; eauto.
+    + destruct (import_loop T fuel st sh true (x0 :: l0) None []) as [[[st3 last3] ev3] e3] eqn:EI.
+      inversion H; subst. eapply import_loop_gen; eauto.
+    + inversion H; subst; auto.
+    + destruct (pruned st sh (x0 :: l0)) as [[st3 ev3] e3] eqn:EP.
+      inversion H; subst. eapply Hpr; eauto.
+Qed.
+
+Lemma insert_chain0_gen : forall fuel st sh l st' ev e,
+  insert_chain0 T fuel st sh l = (st', ev, e) -> P st -> Forall hdr_ok l -> P st'.
+Proof.
+  intros. eapply insert_chain_core_gen; eauto.
+  intros s b l0 s' ev0 e0 Hp. inversion Hp; subst; auto.
+Qed.
+
+Lemma side_write_gen : forall cn l st prev st' prev', side_write st cn l prev = (st', prev') ->
+  P st -> Forall hdr_ok l -> (forall h, prev = Some h -> hdr_ok h) ->
+  P st' /\ (forall h, prev' = Some h -> hdr_ok h).
+Proof.
+  induction l as [|x r IH]; intros st prev st' prev' H HI HF Hp; cbn [side_write] in H.
+  - inversion H; subst; auto.
+  - inversion HF as [|? ? Hx Hr]; subst.
+    destruct (classify st false x); try (inversion H; subst; auto; fail).
+    assert (Hsx : forall h, Some x = Some h -> hdr_ok h) by (intros h Hh; inversion Hh; subst; auto).
+    destruct ((hnum x <=? cn) && oeqb (canon st (hnum x)) (fst x)).
+    + apply (IH _ _ _ _ H HI Hr Hsx).
+    + refine (IH _ _ _ _ H _ Hr Hsx).
+      destruct (is_known st (fst x)); auto. unfold write_block_without_state. auto.
+Qed.
+
+Lemma insert_side_chain_gen : forall fuel st l st' ev e,
+  insert_side_chain T fuel st l = (st', ev, e) -> P st -> Forall hdr_ok l -> P st'.
+Proof.
+  intros fuel st l st' ev e H HI HF. unfold insert_side_chain in H.
+  set (cn := match cur_hdr T st with Some c => hnum c | None => 0 end) in *.
+  destruct (side_write st cn l None) as [st1 prev] eqn:ES.
+  destruct (side_write_gen _ _ _ _ _ _ ES HI HF) as (HI1 & Hprev); [discriminate|].
+  destruct (stateless_walk T fuel st1 prev []) as [[[y|] hashes]|] eqn:EW;
+    try (inversion H; subst; auto; fail).
+  pose proof (stateless_walk_ok _ _ _ _ _ _ EW Hprev (Forall_nil _)) as HFh.
+  destruct (rev hashes) as [|b0 br] eqn:ER; [inversion H; subst; auto|].
+  eapply insert_chain0_gen; eauto. rewrite <- ER. now apply Forall_rev'.
+Qed.
+
+Lemma recover_each_gen : forall fuel l st evs st' ev e,
+  recover_each T fuel st l evs = (st', ev, e) -> P st -> Forall hdr_ok l -> P st'.
+Proof.
+  induction l as [|x r IH]; intros st evs st' ev e H HI HF; cbn [recover_each] in H.
+  - inversion H; subst; auto.
+  - inversion HF as [|? ? Hx Hr]; subst.
+    destruct (insert_chain0 T fuel st false [x]) as [[st1 ev1] e1] eqn:EI.
+    assert (HI1 : P st1) by (eapply insert_chain0_gen; eauto).
+    destruct e1; [inversion H; subst; auto|]. apply (IH _ _ _ _ _ H HI1 Hr).
+Qed.
+
+Lemma recover_ancestors_gen : forall fuel st x st' ev e,
+  recover_ancestors T fuel st x = (st', ev, e) -> P st -> hdr_ok x -> P st'.
+Proof.
+  intros fuel st x st' ev e H HI Hx. unfold recover_ancestors in H.
+  destruct (stateless_walk T fuel st (Some x) []) as [[[y|] hashes]|] eqn:EW;
+    try (inversion H; subst; auto; fail).
+  eapply recover_each_gen; eauto. apply Forall_rev'.
+  eapply stateless_walk_ok; eauto. intros h Hh; inversion Hh; subst; auto.
+Qed.
+
+Lemma pruned_case_gen : forall fuel, pruned_ok (pruned_case T fuel).
+Proof.
+  intros fuel st sh l st' ev e H HI HF. unfold pruned_case in H. destruct sh.
+  - eapply insert_side_chain_gen; eauto.
+  - destruct l as [|x r]; [inversion H; subst; auto|].
+    inversion HF; subst. eapply recover_ancestors_gen; eauto.
+Qed.
+
+Lemma insert_chain_gen : forall fuel st sh l st' ev e,
+  insert_chain T fuel st sh l = (st', ev, e) -> P st -> Forall hdr_ok l -> P st'.
+Proof. intros. eapply insert_chain_core_gen; eauto. apply pruned_case_gen. Qed.
+
+End Generic.
+
+(* a predicate together with "block h0 is stored" is preserved just as well *)
+Definition WithKnown (P : db -> Prop) (h0 : N) (st : db) : Prop := P st /\ is_known st h0 = true.
+
+Section SetCanonical.
+Variable P : db -> Prop.
+Hypothesis P_wbws : forall st x st1, P st -> write_block_with_state st x = Ok st1 -> P st1.
+Hypothesis P_addk : forall st h, P st -> P (add_known st h).
+Hypothesis P_rcpt : forall st h, P st ->
+  P (mkdb (known st) (upd (rcpt st) h true) (avail st) (disk st) (canon st) (lookup st)
+          (hd_block st) (hd_header st) (hd_snap st)).
+Hypothesis P_wkb : forall fuel st x st' ev, P st -> hdr_ok x -> is_known st (fst x) = true ->
+  write_known_block T fuel st x = Ok (st', ev) -> P st'.
+
+Lemma set_canonical_gen : forall fuel st x st' ev e,
+  set_canonical T fuel st x = (st', ev, e) -> P st -> hdr_ok x -> is_known st (fst x) = true -> P st'.
+Proof.
+  intros fuel st x st' ev e H HI Hx HK. unfold set_canonical in H.
+  destruct (if avail st (fst x) then (st, [], None) else recover_ancestors T fuel st x)
+    as [[st1 ev1] e1] eqn:ER.
+  assert (HI1 : WithKnown P (fst x) st1).
+  { destruct (avail st (fst x)); [inversion ER; subst; split; auto|].
+    eapply (recover_ancestors_gen (WithKnown P (fst x))); eauto; try (split; auto; fail).
+    - intros s y s1 (Hp & Hk) Hw. split; [eauto|]. apply (wbws_known _ _ _ _ Hw); auto.
+    - intros s h (Hp & Hk). split; auto. now apply add_known_known.
+    - intros s h (Hp & Hk). split; auto.
+    - intros f s y s' ev0 (Hp & Hk) Hy Hky Hw. split; [eauto|].
+      unfold is_known in *. now rewrite (wkb_known _ _ _ _ _ Hw). }
+  destruct HI1 as (HP1 & HK1).
+  destruct e1; [inversion H; subst; auto|].
+  destruct (reorg_if_needed T fuel st1 x) as [[st2 ev2]|] eqn:ERI; inversion H; subst; auto.
+  apply (P_wkb fuel st1 x _ ev2); auto. unfold write_known_block. now rewrite ERI.
+Qed.
+
+Lemma get_by_hash_known : forall st h x, get_by_hash T st h = Some x ->
+  hdr_ok x /\ is_known st (fst x) = true.
+Proof.
+  intros st h x H. unfold get_by_hash in H. destruct (T h) as [b|] eqn:ET; [|discriminate].
+  destruct (is_known st h) eqn:EK; inversion H; subst. split; auto.
+Qed.
+
+Lemma step_import_gen : forall fuel st o st' ev e, import_op o ->
+  step T fuel st o = (st', ev, e) -> P st -> P st'.
 Proof.
   intros fuel st o st' ev e Ho H HI. destruct o as [l|h|h|n|]; cbn in Ho; try tauto; cbn [step] in H.
   - destruct (resolve_all T l) as [hs|] eqn:ER; [|inversion H; subst; auto].
     destruct (contiguous hs); [|inversion H; subst; auto].
-    eapply insert_chain_inv; eauto; eapply resolve_all_ok; eauto.
+    eapply (insert_chain_gen P); eauto; eapply resolve_all_ok; eauto.
   - destruct (T h) as [b|] eqn:ET; [|inversion H; subst; auto].
-    eapply insert_chain_inv; eauto.
+    eapply (insert_chain_gen P); eauto.
   - destruct (get_by_hash T st h) as [x|] eqn:EG; [|inversion H; subst; auto].
-    eapply set_canonical_inv; eauto; eapply get_by_hash_ok; eauto.
+    destruct (get_by_hash_known _ _ _ EG). eapply set_canonical_gen; eauto.
+Qed.
+
+End SetCanonical.
+
+(* the index invariant is such a predicate *)
+Lemma Inv_wbws : forall st x st1, Inv st -> write_block_with_state st x = Ok st1 -> Inv st1.
+Proof. intros st x st1 HI H. destruct (wbws_core _ _ _ H) as (E1 & E2 & E3). eapply Inv_core; eauto. Qed.
+Lemma Inv_addk : forall st h, Inv st -> Inv (add_known st h).
+Proof. intros st h HI. destruct (add_known_core st h) as (E1 & E2 & E3). eapply Inv_core; eauto. Qed.
+Lemma Inv_rcpt : forall st h, Inv st ->
+  Inv (mkdb (known st) (upd (rcpt st) h true) (avail st) (disk st) (canon st) (lookup st)
+            (hd_block st) (hd_header st) (hd_snap st)).
+Proof. intros st h HI. exact HI. Qed.
+Lemma Inv_wkb : forall fuel st x st' ev, Inv st -> hdr_ok x -> is_known st (fst x) = true ->
+  write_known_block T fuel st x = Ok (st', ev) -> Inv st'.
+Proof. intros. eapply wkb_inv; eauto. Qed.
+
+Lemma step_import_inv : forall fuel st o st' ev e, import_op o ->
+  step T fuel st o = (st', ev, e) -> Inv st -> Inv st'.
+Proof.
+  intros. eapply (step_import_gen Inv Inv_wbws Inv_addk Inv_rcpt Inv_wkb); eauto.
 Qed.
 
 Lemma Inv_genesis : Inv genesis_db.
@@ -347,7 +464,7 @@ Lemma run_inv : forall fuel ops st, Forall import_op ops -> Inv st -> Inv (run f
 Proof.
   induction ops as [|o r IH]; intros st HF HI; cbn; auto.
   inversion HF; subst. apply IH; auto.
-  destruct (step T fuel st o) as [[st1 ev] e] eqn:ES. cbn. eapply step_inv; eauto.
+  destruct (step T fuel st o) as [[st1 ev] e] eqn:ES. cbn. eapply step_import_inv; eauto.
 Qed.
 
 (* the invariant in the property's own words *)
